@@ -765,8 +765,11 @@ class eval_abs(object):
             aa = self.eval_expr(x, eval_cache)
             if isinstance(aa, ExprTop):
                 return ExprTop()
-            else:
-                args.append((aa, start, stop))
+            if isinstance(aa, ExprSlice) and isinstance(aa.arg, ExprInt):
+                # slice of a constant whose width has no integer type (e.g. 24 bits)
+                v = (int(aa.arg.arg) >> aa.start) & ((1 << (aa.stop - aa.start)) - 1)
+                aa = ExprInt(aa.arg.arg.__class__(v))
+            args.append((aa, start, stop))
         for x, start, stop in args:
             if isinstance(x, ExprTop):
                 return ExprTop()
